@@ -1,25 +1,28 @@
 """Configuration of ./check for property C07 (loaded by tools/props.py)."""
 
-PROP = {'engine': 'srv',
- 'lean_props': ['MuscleModel.Props.C07'],
+PROP = {'assumptions': ['runtime behaviour observed under sanitizers, not proved'],
+ 'engine': 'srv',
  'harnesses': [{'name': 'srv', 'sources': ['harness/srv.cpp']}],
- 'trusted_base': ['hand-written Lean model of the reflector: node tree, path matcher, literal wildcard traversal, notification pipeline, command handlers '
-                  '(lean/MuscleModel/Reflector/{Glob,Tree,Traverse,Server,Handlers}.lean, Engines/Srv.lean)',
-                  'tie: harness/srv.cpp drives a real in-process ReflectServer (one ServerProcessLoop iteration at a time, real MessageIOGateways over socket '
-                  "pairs); tree digest, per-node subscriber tables and every Message each client receives must equal the model's prediction line by line",
-                  'clause patterns in the reflector model are the fragment {literal, \\\\c, *, ?, top-level comma}; the full pattern syntax is property C15; '
-                  'glibc regcomp/regexec trusted as there',
-                  'content filters in the reflector engine are int32 comparisons on one field; the full filter language is property C14'],
- 'assumptions': ['runtime behaviour observed under sanitizers, not proved'],
+ 'lean_props': ['MuscleModel.Props.C07'],
  'rule': 'generated histories over 2-5 sessions on two hosts: attach/detach, SETDATA (incl. ADDTOINDEX), REMOVEDATA with wildcards, SUBSCRIBE with/without '
          'int32 filters, re-filter, unsubscribe, reflect-to-self, max-items, default route, client-to-client Messages with 0-2 key patterns, '
          'INSERTORDEREDDATA, REORDERDATA, BATCH, PING, FindMatchingNodes; every 4th case is the hostile stream (arbitrary structurally valid Messages with '
          'reserved names and wrong types, quiet flags, GETDATA, JETTISONRESULTS with filters while a client is not reading, connection cuts after a byte '
          'prefix) followed by a witness ping after every op; direct oracles evaluated on the real server at every quiescent point; distinct = distinct case '
          'bodies',
- 'timeout': 600}
+ 'timeout': 600,
+ 'trusted_base': ['hand-written Lean model of the reflector: node tree, path matcher, literal wildcard traversal, notification pipeline, command handlers '
+                  '(lean/MuscleModel/Reflector/{Glob,Tree,Traverse,Server,Handlers}.lean, Engines/Srv.lean)',
+                  'tie: harness/srv.cpp drives a real in-process ReflectServer (one ServerProcessLoop iteration at a time, real MessageIOGateways over socket '
+                  "pairs); tree digest, per-node subscriber tables and every Message each client receives must equal the model's prediction line by line",
+                  'clause patterns in the reflector model are the fragment {literal, \\\\c, *, ?, top-level comma}; the full pattern syntax is property C15; '
+                  'glibc regcomp/regexec trusted as there',
+                  'content filters in the reflector engine are int32 comparisons on one field; the full filter language is property C14']}
 
 TEXT = {'design_ref': 'DESIGN.md section 4, C07',
+ 'note': 'Partial by nature: time bounds, stack depth, libc regcomp cost and memory safety of the binary are observed, not proved; work is counted in visits '
+         'and deliveries of the model, and the pattern tests per child (at most the number of entries) are not stated as a theorem.  The model covers the '
+         'command subset of Engines/Srv.lean.',
  'technique': "Lean 4 theorems (every handler of the reflector model is total; a second session's ping is answered after any command history) + hostile-stream "
               'exploration of a real server with a witness session, per-op alarm and ASan/UBSan',
  'text': 'In the model every handler is a total Lean function and `witness_pong_history` shows that after ANY history of commands by any sessions another '
@@ -27,6 +30,8 @@ TEXT = {'design_ref': 'DESIGN.md section 4, C07',
          'generated case sends arbitrary structurally valid Messages (whole PR_COMMAND range +-2, reserved field names with right and wrong types, malformed '
          'patterns, hostile filter archives, JETTISON* while results are queued for a client that does not read, cuts) and pings from a witness session after '
          "every op under a 20 s alarm, ASan and UBSan. Every command, push, arrival and departure of another session only APPENDS to every other session's "
-         'queue of results (`inbox_append_only*`, also over histories): what a victim has been sent can not be taken back or reordered by anybody else.',
- 'note': 'Partial by nature: time bounds, stack depth, libc regcomp cost and memory safety of the binary are observed, not proved.  The model covers the '
-         'command subset of Engines/Srv.lean.'}
+         'queue of results (`inbox_append_only*`, also over histories): what a victim has been sent can not be taken back or reordered by anybody else.  '
+         'Bounded work in the model: `traversal_visits_bounded` (for every tree, matcher, callback and fuel a traversal hands at most one visit per node below '
+         'its root to the callback - the bound does not depend on the number or shape of the hostile patterns), `traversal_depth_bounded` (no visit path '
+         'longer than the depth limit), `travGlobal_bounded`/`travSession_bounded`, and `route_deliveries_bounded`/`send_deliveries_bounded` (one '
+         'client-to-client Message enqueues at most max(nodes, sessions) copies in total).'}
